@@ -3,28 +3,25 @@ use noodles_bgzf as bgzf;
 use noodles_core::Position;
 
 use super::Index;
-use crate::binning_index::index::reference_sequence::{bin::Chunk, parent_id, reg2bin};
+use crate::binning_index::index::reference_sequence::{bin::Chunk, reg2bin};
 
 /// A binned index.
 pub type BinnedIndex = IndexMap<usize, bgzf::VirtualPosition>;
 
 impl Index for BinnedIndex {
     fn min_offset(&self, min_shift: u8, depth: u8, start: Position) -> bgzf::VirtualPosition {
-        let end = start;
-        let mut bin_id = reg2bin(start, end, min_shift, depth);
+        // 0-based
+        let beg = usize::from(start) - 1;
 
-        loop {
-            if let Some(position) = self.get(&bin_id) {
-                return *position;
-            }
-
-            bin_id = match parent_id(bin_id) {
-                Some(id) => id,
-                None => break,
-            }
-        }
-
-        bgzf::VirtualPosition::default()
+        // The offset of a bin is the start of the first record in that bin, not of the first
+        // record that overlaps its interval. A record that intersects an interval starting at
+        // `start` is in a bin that either contains `start` or is to the right of it; all of
+        // these bins have to be considered.
+        self.iter()
+            .filter(|&(&id, _)| bin_end(id, min_shift, depth) > beg)
+            .map(|(_, position)| *position)
+            .min()
+            .unwrap_or_default()
     }
 
     fn last_first_start_position(&self) -> Option<bgzf::VirtualPosition> {
@@ -42,6 +39,34 @@ impl Index for BinnedIndex {
             })
             .or_insert(chunk.start());
     }
+}
+
+// Returns the 0-based, exclusive end of the interval covered by the given bin.
+fn bin_end(id: usize, min_shift: u8, depth: u8) -> usize {
+    let mut level = 0;
+    let mut first_id = 0;
+
+    while let Some(next_first_id) = first_id_of_next_level(first_id)
+        && id >= next_first_id
+    {
+        level += 1;
+        first_id = next_first_id;
+    }
+
+    if level > depth {
+        return usize::MAX;
+    }
+
+    let shift = u32::from(min_shift) + 3 * u32::from(depth - level);
+
+    (id - first_id + 1)
+        .checked_shl(shift)
+        .filter(|n| n >> shift == id - first_id + 1)
+        .unwrap_or(usize::MAX)
+}
+
+fn first_id_of_next_level(first_id: usize) -> Option<usize> {
+    first_id.checked_mul(8)?.checked_add(1)
 }
 
 #[cfg(test)]
